@@ -103,7 +103,11 @@ func (this *Utxos) Len() int {
 
 func (this *Utxos) Less(i, j int) bool {
 	if this.Utxos[i].Value == this.Utxos[j].Value {
-		return bytes.Compare(this.Utxos[i].Op.Hash, this.Utxos[j].Op.Hash) == -1
+		if c := bytes.Compare(this.Utxos[i].Op.Hash, this.Utxos[j].Op.Hash); c != 0 {
+			return c == -1
+		}
+		// outputs of one transaction: order by output index so that the order is total
+		return this.Utxos[i].Op.Index < this.Utxos[j].Op.Index
 	}
 	return this.Utxos[i].Value < this.Utxos[j].Value
 }
